@@ -1027,6 +1027,16 @@ func c13ContextChosenByTheOrderedWalk(c *Ctx) {
 			}
 		case *ssa.Lookup:
 			return "a map look-up"
+		case *ssa.Call:
+			// a helper of the package that walks the providers itself (benign variant alpn-helper): judged at its returns
+			if callee := x.Call.StaticCallee(); callee != nil && callee.Pkg == fn.Pkg && len(callee.Blocks) > 0 && callee.Signature.Results().Len() == 1 {
+				for _, in := range instrsWhere(callee, isReturn) {
+					if bad := origin(unspill(in.(*ssa.Return), 0), seen); bad != "" {
+						return bad
+					}
+				}
+				return ""
+			}
 		}
 		return v.String()
 	}
